@@ -201,6 +201,13 @@ def streams(ctx, scale=1):
         lines.append("ep2_param %d" % cid)      # installs the twist (and with it the pairing generators)
         lines.append("ep_param %d" % cid)
         lines += rel_lines(ctx.rng, ["gt_exp_sec", "ep2_lwreg", "g2_mul_sec", "g1_mul_sec"], 256, per // 2)
+        # multiples of the group order next to ordinary scalars of the same length (a reduction followed by a zero test is an early exit)
+        nn = c03.Cv(c03.curve_info(exe, cid)).n
+        for f in ("g2_mul_sec", "ep2_lwreg", "g1_mul_sec", "gt_exp_sec"):
+            for a, b in ((nn, nn - 2), (2 * nn, 2 * nn - 5), (nn - 3, nn), (3 * nn, 3 * nn + 1)):
+                if f == "gt_exp_sec" and a > nn:
+                    continue        # exponents longer than the order are refused with a reported error (fixed-size recoding; C10-F5)
+                lines.append("ct_rel %s %x %s %s" % (f, 1 + ctx.rng.below(1000), hx(a), hx(b)))
         # rare value-dependent paths (one scalar in a thousand): thousands of pseudo-random scalars of one length against the first log
         nscan = 1500 if ctx.tier == "quick" else 20000
         for f in ("g2_mul_sec", "gt_exp_sec", "g1_mul_sec"):
